@@ -7,7 +7,7 @@ from fractions import Fraction
 import numpy as np
 import z3
 
-from .fingerprint import fingerprint
+from .fingerprint import fingerprint, neg_oriented
 from .core import (RS, SymReal, Ctx, R, lift, _assume, _is_zero, _is_one,
                    PI, SQRT2, SQRTPI, SQRT3, LOG2PI, LOG2, LOGPI, E1)
 
@@ -129,12 +129,18 @@ def exp_term(e):
                 (num if c > 0 else den).append(_ipow(sqrt_term(u), abs(c.numerator)))
                 continue
         a = abs(c)
-        # canonical orientation of the atom's argument: exp(-t) is written 1/exp(t)
+        # canonical orientation of the atom's argument c*t: exp(-w) is written 1/exp(w).  The choice
+        # is made on the value of the whole term so that syntactically different splittings of the
+        # same argument (c=1, t=-x/2  vs  c=-1/2, t=x) agree.
         fp = fingerprint(t)
         pos = c > 0
-        if fp is not None and fp < 0:
-            t = z3.simplify(-t)
-            pos = not pos
+        if fp is not None:
+            from .fingerprint import P as _P
+            full = (c.numerator % _P) * pow(c.denominator % _P, _P - 2, _P) % _P * fp % _P
+            want_pos = not neg_oriented(full)  # orientation of the atom exp(|c| * t') with t' = +-t
+            if want_pos != pos:
+                t = z3.simplify(-t)
+                pos = not pos
         if a.denominator == 1 and a.numerator <= 6:
             atom = _ipow(UF["exp"](t), a.numerator)
         else:
@@ -243,7 +249,7 @@ def sqrt_term(e):
 def _neg_leading(e):
     fp = fingerprint(e)
     if fp is not None and fp != 0:
-        return fp < 0
+        return neg_oriented(fp)
     lt = linear_terms(e)
     return bool(lt) and lt[0][0] < 0
 
@@ -255,7 +261,7 @@ def abs_term(e):
     if is_uf(e, "abs") or is_uf(e, "exp") or is_uf(e, "sqrt"):
         return e
     fp = fingerprint(e)
-    if fp is not None and fp < 0:
+    if fp is not None and neg_oriented(fp):
         e = z3.simplify(-e)
     return UF["abs"](e)
 
